@@ -332,13 +332,13 @@ SPEC("pane.classes", "PaneConverter.__init__",
      note="assumed: field names / input names are hashable strings (Field records built by FieldSpec.make_field)",
      ensures=[
          (lambda self, cls, handlers: self.fields is getattr(cls, "__pane_info__").fields and self.opts is getattr(cls, "__pane_info__").opts
-          and slen(self.field_converters) == slen(self.fields), ["C15", "C17"], "wiring"),
+          and slen(self.field_converters) == slen(self.fields), ["C15", "C17", "C04"], "wiring"),
          # a field's own converter wins outright; otherwise the field type is built with: call-level handlers kept,
          # this class's handlers BEFORE those of enclosing classes (C18)
          (lambda self, cls, handlers: forall(range(slen(self.fields)), lambda i: sat(self.field_converters, i) == ite(
              is_none(sat(self.fields, i).converter),
              mkconv(sat(self.fields, i).type, ConverterHandlers(handlers.globals, (*self.opts.class_handlers, *handlers.class_local))),
-             sat(self.fields, i).converter)), ["C18", "C15"], "handlers"),
+             sat(self.fields, i).converter)), ["C18", "C15", "C04"], "handlers"),
          # input-name map: a key is bound exactly when it is an input name of some constructor field
          (lambda self, cls, handlers: forall_val(lambda k: mhas(self.field_map, k) ==
                                                  exists(range(slen(self.fields)), lambda i: names_field(self, k, i))), ["C15"], "field-map-keys"),
